@@ -30,7 +30,7 @@ pub struct Session {
     pub fs: SimFs,
     pub path: String,
     pub cfg: Config,
-    pub db: Option<DB>,
+    pub db: Option<std::sync::Arc<DB>>,
     pub model: Map,
     pub oplog: Vec<String>,
     pub acks: Vec<AckRec>,
@@ -83,7 +83,7 @@ impl Session {
         self.log(format!("open {}", self.cfg.describe()));
         match DB::open(self.options()) {
             Ok(db) => {
-                self.db = Some(db);
+                self.db = Some(std::sync::Arc::new(db));
                 Ok(())
             }
             Err(e) => Err(err_string(&e)),
@@ -94,7 +94,29 @@ impl Session {
         if let Some(db) = self.db.take() {
             let _g = watch::enter("close");
             self.log("close".into());
-            drop(db);
+            match std::sync::Arc::try_unwrap(db) {
+                Ok(db) => drop(db),
+                Err(shared) => {
+                    // still shared with a helper thread: wait briefly for it to let go
+                    let mut shared = Some(shared);
+                    for _ in 0..2000 {
+                        match std::sync::Arc::try_unwrap(shared.take().unwrap()) {
+                            Ok(db) => {
+                                drop(db);
+                                break;
+                            }
+                            Err(again) => {
+                                shared = Some(again);
+                                std::thread::sleep(Duration::from_millis(1));
+                            }
+                        }
+                    }
+                    // a handle that is still shared is leaked (never dropped by a helper thread)
+                    if let Some(leak) = shared {
+                        std::mem::forget(leak);
+                    }
+                }
+            }
         }
     }
 
@@ -107,6 +129,10 @@ impl Session {
 
     pub fn db(&self) -> &DB {
         self.db.as_ref().expect("session has no open database")
+    }
+
+    pub fn db_arc(&self) -> std::sync::Arc<DB> {
+        std::sync::Arc::clone(self.db.as_ref().expect("session has no open database"))
     }
 
     fn read_options(&self, snapshot: Option<&Snapshot>) -> ReadOptions {
